@@ -5,3 +5,23 @@
 
 // wrappers over crate-private items of statime-algo's root (KalmanController internals)
 use crate::*;
+
+// ---- read-only accessors into a KalmanController (C42/C43) ----
+pub fn with_filter<S: KalmanStorage<C>, C: Clock, R>(
+    ctl: &KalmanController<S, C>,
+    f: impl FnOnce(&LinkFilter<S>, &LinkFilterConfig) -> R,
+) -> R {
+    ctl.state.with_ref(|st| f(&st.filter, &st.filter_config))
+}
+
+pub fn clone_filter<S: KalmanStorage<C>, C: Clock>(ctl: &KalmanController<S, C>) -> (LinkFilter<S>, LinkFilterConfig) {
+    ctl.state.with_ref(|st| (st.filter.clone(), st.filter_config.clone()))
+}
+
+pub fn steered_clock_count<S: KalmanStorage<C>, C: Clock>(ctl: &KalmanController<S, C>) -> usize {
+    ctl.state.with_ref(|st| st.clocks.len())
+}
+
+pub fn link_id<R: AsRef<KalmanController<S, C>>, S: KalmanStorage<C>, C: Clock>(link: &KalmanLink<R, S, C>) -> LinkId {
+    link.link_id
+}
